@@ -397,12 +397,12 @@ pub fn step(sys: &Sys, act: &Act) -> Sys {
     n
 }
 
-fn enabled(sys: &Sys, out: &mut Vec<Act>) {
+fn enabled(sys: &Sys, lens: &[u8], out: &mut Vec<Act>) {
     if sys.bad.is_some() {
         return;
     }
     if sys.queue.len() < 2 {
-        for mlen in [0u8, 17] {
+        for &mlen in lens {
             for ad in [false, true] {
                 for tag in 0u8..4 {
                     out.push(Act::Push { mlen, ad, tag });
@@ -436,6 +436,7 @@ fn enabled(sys: &Sys, out: &mut Vec<Act>) {
 pub struct StreamModel {
     pub inits: Vec<Sys>,
     pub max_depth: u8,
+    pub lens: Vec<u8>,
 }
 
 
@@ -447,7 +448,7 @@ impl Model for StreamModel {
     }
     fn actions(&self, s: &Sys, out: &mut Vec<Act>) {
         if s.depth < self.max_depth {
-            enabled(s, out)
+            enabled(s, &self.lens, out)
         }
     }
     fn next_state(&self, s: &Sys, a: Act) -> Option<Sys> {
@@ -560,7 +561,11 @@ pub fn replay_model(case: &Value) -> Option<String> {
 }
 
 fn run_model(ctx: &mut Ctx, inits: Vec<(String, Sys)>, depth: u8, dfs: bool, threads: usize) -> (usize, usize, usize, Stats) {
-    let model = StreamModel { inits: inits.iter().map(|x| x.1.clone()).collect(), max_depth: depth };
+    run_model_lens(ctx, inits, depth, dfs, threads, &[0, 17])
+}
+
+fn run_model_lens(ctx: &mut Ctx, inits: Vec<(String, Sys)>, depth: u8, dfs: bool, threads: usize, lens: &[u8]) -> (usize, usize, usize, Stats) {
+    let model = StreamModel { inits: inits.iter().map(|x| x.1.clone()).collect(), max_depth: depth, lens: lens.to_vec() };
     let t0 = N_TRANS.load(Ordering::Relaxed);
     let builder = model.checker().threads(threads);
     fn collect<C: Checker<StreamModel>>(c: C) -> (usize, usize, usize, Vec<(&'static str, stateright::Path<Sys, Act>)>) {
@@ -708,7 +713,7 @@ pub fn run() -> i32 {
     sodium::init();
     quiet_panics();
     let mut ctx = Ctx::new("C03", "model_checking");
-    ctx.rule = "states: distinct (push state, pull state, in-flight queue<=2, last delivered, depth, rejected-flag) values reached by exhaustive search over the action alphabet {Push(mlen in {0,17} x ad in {none,3B} x tag in 0..=3), RekeyBoth, RekeyPush, RekeyPull, Deliver, Wrong(12 kinds)} from every initial state up to the depth bound; every transition executes the real dryoc classic + object API code and libsodium in lockstep; sweep: every (state class, mlen, adlen, tag byte) cell once; a case is non-trivial when both dryoc and libsodium were executed on it".into();
+    ctx.rule = "states: distinct (push state, pull state, in-flight queue<=2, last delivered, depth, rejected-flag) values reached by exhaustive search over the action alphabet {Push(mlen in {0,17} (and {0,1,17,64} in the wide-alphabet run at a smaller depth) x ad in {none,3B} x tag in 0..=3), RekeyBoth, RekeyPush, RekeyPull, Deliver, Wrong(12 kinds)} from every initial state up to the depth bound; every transition executes the real dryoc classic + object API code and libsodium in lockstep; sweep: every (state class, mlen, adlen, tag byte) cell once; a case is non-trivial when both dryoc and libsodium were executed on it".into();
     ctx.assume("libsodium 1.0.18 (libsodium-sys 0.2.7) is the reference for bytes, verdicts and state");
     ctx.assume("histories longer than the depth bound and payload values outside the stated alphabets are not covered");
     ctx.assume("raw stream states are installed through hook H1 (counter presets replace 2^32 real pushes)");
@@ -768,6 +773,12 @@ pub fn run() -> i32 {
             }
         }
         ctx.note("deepest_completed_depth", json!(completed));
+        // wide alphabet: message lengths {0, 1, 17, 64} (block-boundary and 1-byte messages too)
+        let wd = ctx.tier.pick(4u8, 6);
+        let t = std::time::Instant::now();
+        let (u, tot, md, st) = run_model_lens(&mut ctx, inits.clone(), wd, true, 16, &[0, 1, 17, 64]);
+        ctx.note("wide_alphabet", json!({"message_lengths": [0, 1, 17, 64], "depth_bound": wd, "unique_states": u, "states_generated": tot, "max_depth": md, "wall_s": t.elapsed().as_secs_f64()}));
+        ctx.absorb(&format!("model-dfs-wide-d{}", wd), st);
     }
     ctx.total.sample(json!({"engine": "stateright", "example_history": ["Push{mlen:17,ad:true,tag:2}", "Wrong(Skip)", "Deliver", "Wrong(Replay)", "RekeyPull", "Deliver"]}));
     ctx.note(
